@@ -3,6 +3,9 @@
   * np.unique(a, return_index, return_inverse, return_counts)   (sorted distinct values, FIRST occurrence, inverse, counts)
   * np.round / np.around / round(x, d)                           (nearest multiple of 10**-d, ties to even)
   * np.interp with duplicate sample points                       (right-continuous at duplicate knots, clamped outside)
+  * np.interp with the LAST knots coincident / all knots coincident (total length zero): finite, fp[-1] at and right of the last knot
+  * np.searchsorted(a, v, side) on an ascending array with duplicates, needle vectors (concrete shape and symbolic-length form), both sides
+  * np.clip of a 1-D index array, a[idx] / A[idx] (rows) through an integer index array of the symbolic-length form
   * np.linspace(a, b, m) with a concrete m                       (end point exactly b, m = 0, 1, 2 ...)
   * np.insert, np.ceil, np.floor, np.maximum, np.minimum on scalars
   * np.argmin of a concrete-shape array (one fork per possible answer, +inf entries skipped)
@@ -28,7 +31,7 @@ import z3
 from pyvc import ext_C16 as X
 from pyvc import narr
 from pyvc.spec import Registry
-from pyvc.values import NArr, Sym, fresh, to_z3
+from pyvc.values import NArr, SArr, Sym, fresh, to_z3
 from pyvc.verify import Verifier
 
 bad = 0
@@ -80,6 +83,21 @@ def same(E, got, want, what, info=()):
     s.add(z3.Or(*diff) if diff else z3.BoolVal(False))
     if s.check() != z3.unsat:
         mismatch(what, [str(p[0])[:40] for p in pairs], "numpy:", [p[1] for p in pairs], *info)
+
+
+def as_sarr(a):
+    """the 1-D concrete-shape array `a` as an array of the symbolic-length form (length a number, cells the same terms)"""
+    arr = z3.K(z3.IntSort(), to_z3(0, a.kind))
+    for j, x in enumerate(a.items):
+        arr = z3.Store(arr, j, to_z3(x, a.kind))
+    return SArr(arr, len(a.items), a.kind)
+
+
+def cells_of(v, n):
+    """the n cells of a 1-D model value (either form) as an NArr"""
+    if isinstance(v, NArr):
+        return v
+    return NArr((n,), [Sym(z3.simplify(v.get(z3.IntVal(i)).z), v.kind) for i in range(n)], v.kind)
 
 
 def eighths(rng, lo=-3, hi=3):
@@ -143,6 +161,45 @@ def main():
         ok = all(Fraction(w).denominator <= 4096 for w in want.tolist())
         if ok:
             same(E, got, want, "np.interp/duplicate-knots", (xs, xp, fp))
+        # ---- np.interp / np.searchsorted on knots whose LAST ones coincide, or that all coincide (branch of total length zero)
+        tail = rng.randint(2, k) if k >= 2 else 1
+        for xq in ([xp[j] if j < k - tail else xp[k - tail] for j in range(k)], [xp[-1]] * k):
+            xs2 = [rng.choice(xq + [xq[-1], eighths(rng, -1, 5)]) for _ in range(4)]
+            E = engine()
+            got = X.np_interp(E, [pinned(E, xs2), pinned(E, xq), pinned(E, fp)], {})
+            want = np.interp(np.array(xs2), np.array(xq), np.array(fp))
+            if not np.isfinite(want).all() or any(w != fp[-1] for w, x in zip(want.tolist(), xs2) if x >= xq[-1]):
+                mismatch("np.interp/reference: finite, last value at the last knot", xs2, xq, fp, want)
+            if all(Fraction(w).denominator <= 4096 for w in want.tolist()):
+                same(E, got, want, "np.interp/last-knots-coincide", (xs2, xq, fp))
+                E = engine()
+                got = X.np_interp(E, [as_sarr(pinned(E, xs2)), pinned(E, xq), pinned(E, fp)], {})
+                same(E, cells_of(got, len(xs2)), want, "np.interp/last-knots-coincide/symbolic-length-samples", (xs2, xq, fp))
+        # ---- np.searchsorted on an ascending array with duplicates; np.clip; gathers through the index array
+        for side in ("left", "right"):
+            for form in ("concrete", "symbolic-length"):
+                E = engine()
+                a, v = pinned(E, xp), pinned(E, xs)
+                got = X.np_searchsorted(E, [a, v if form == "concrete" else as_sarr(v)], dict(side=side))
+                want = np.searchsorted(np.array(xp), np.array(xs), side=side)
+                same(E, cells_of(got, len(xs)), want, f"np.searchsorted/{side}/{form}", (xp, xs))
+                if form == "symbolic-length":
+                    lo, hi = rng.randint(-1, 2), rng.randint(0, k)
+                    idx = X.np_clip(E, [E.binop(X.ast.Sub(), got, 1), lo, hi], {})
+                    widx = np.clip(want - 1, lo, hi)
+                    same(E, cells_of(idx, len(xs)), widx, "np.clip/index-array", (xp, xs, lo, hi))
+                    idx = X.np_clip(E, [got, 0, k - 1], {})
+                    widx = np.clip(want, 0, k - 1)
+                    same(E, cells_of(X.narr_getitem(E, pinned(E, fp), idx), len(xs)), np.array(fp)[widx], "gather a[idx]", (fp, widx))
+                    tab = [[eighths(rng) for _ in range(3)] for _ in range(k)]
+                    A = NArr((k, 3), pinned(E, [c for row in tab for c in row]).items, "real")
+                    g2 = X.narr_getitem(E, A, idx)
+                    for c in range(3):
+                        col = NArr((len(xs),), [Sym(z3.simplify(z3.Select(g2.cols[c], i)), "real") for i in range(len(xs))], "real")
+                        same(E, col, np.array(tab)[widx][:, c], "gather A[idx] (rows)", (tab, widx))
+        E = engine()
+        got = X.np_searchsorted(E, [pinned(E, xp), pinned(E, xs[:1]).items[0]], dict(side="right"))
+        same(E, got, int(np.searchsorted(np.array(xp), xs[0], side="right")), "np.searchsorted/right/scalar", (xp, xs[0]))
         # ---- np.linspace with a concrete count
         a0, b0, m = eighths(rng), eighths(rng), rng.randint(0, 5)
         E = engine()
